@@ -66,23 +66,15 @@ Theorem C13_nil_fit : forall cv (S : list tree), forallb (tree_nil_ok (classes_o
 Proof. exact nil_fit. Qed.
 Print Assumptions C13_nil_fit.
 
-(* 5. namespace: "the merged class has the class namespace build_class computes for the node" (None for an
-      unqualified element whose ancestors are all unqualified, "" below a qualified ancestor) is FALSE ... *)
-Theorem C13_ns_fit_refuted : exists cv S, forallb (doc_ns_ok (classes_of_xml cv S)) S = false.
-Proof. exact ns_fit_refuted. Qed.
-Print Assumptions C13_ns_fit_refuted.
-
-(*    ... and true when all occurrences of an element name have the same class namespace (clause g_ns) *)
-Theorem C13_ns_fit : forall cv (S : list tree),
-  g_ns_uniform cv S = true -> forallb (doc_ns_ok (classes_of_xml cv S)) S = true.
+(* 5. namespace: the merged class has the class namespace build_class computes for the node (None for an
+      unqualified element whose ancestors are all unqualified, "" below a qualified ancestor), or it is
+      explicitly unqualified ("") where the node would inherit none — never the namespace of whatever parent it is
+      bound under.  No side condition since /repo fix 6637729 (before, reduce_classes copied group[0]'s namespace
+      and the statement was refuted by an unqualified k below a qualified p and below an unqualified q, which the
+      check still replays). *)
+Theorem C13_ns_fit : forall cv (S : list tree), forallb (doc_ns_ok (classes_of_xml cv S)) S = true.
 Proof. exact ns_fit. Qed.
 Print Assumptions C13_ns_fit.
-
-Example C13_guards_nonvacuous :
-  g_ns_uniform no_tests w_guard_ok = true
-  /\ existsb (fun t => existsb (fun k => match xsi_nil_of k with Some true => true | _ => false end) (t_kids t)) w_guard_ok = true.
-Proof. exact guards_nonvacuous. Qed.
-Print Assumptions C13_guards_nonvacuous.
 
 (* 6. the remaining clauses of `regular` (evaluated per document by the check, no unbounded theorem under
       them): each is a statement about the merged classes that the faithful model falsifies; every witness
